@@ -543,6 +543,50 @@ theorem sound_fromItems (al : Bool) (mv : V) (items : List Item) : ∀ {fr fr' :
       rw [← h.2.2]; exact Sound.refl s
     · exact (sound_exportIf _ _ _ _).trans (ih h)
 
+theorem sound_bindEntries (b : Bool) (mv : V) (es : List PEntry) :
+    ∀ {fr fr' : Frame} {s s' : St} {r : Option Err},
+    bindEntries b mv es fr s = (r, fr', s') → Sound s s' := by
+  induction es with
+  | nil =>
+    intro fr fr' s s' r h
+    simp only [bindEntries, Prod.mk.injEq] at h
+    rw [← h.2.2]; exact Sound.refl s
+  | cons e rest ih =>
+    intro fr fr' s s' r h
+    unfold bindEntries at h
+    split at h
+    · simp only [Prod.mk.injEq] at h
+      rw [← h.2.2]; exact Sound.refl s
+    · split at h
+      · exact (sound_exportIf _ _ _ _).trans (ih h)
+      · exact ih h
+
+theorem sound_bindTargets (b : Bool) (ts : List Target) :
+    ∀ {vs : List V} {fr fr' : Frame} {s s' : St} {r : Option Err},
+    bindTargets b ts vs fr s = (r, fr', s') → Sound s s' := by
+  induction ts with
+  | nil =>
+    intro vs fr fr' s s' r h
+    simp only [bindTargets, Prod.mk.injEq] at h
+    rw [← h.2.2]; exact Sound.refl s
+  | cons t rest ih =>
+    intro vs fr fr' s s' r h
+    cases t with
+    | id k =>
+      simp only [bindTargets] at h
+      exact (sound_exportIf _ _ _ _).trans (ih h)
+    | ignored =>
+      simp only [bindTargets] at h
+      exact ih h
+    | mapPat es =>
+      simp only [bindTargets] at h
+      split at h
+      · rename_i hb
+        simp only [Prod.mk.injEq] at h
+        rw [← h.2.2]; exact sound_bindEntries _ _ _ hb
+      · rename_i hb
+        exact (sound_bindEntries _ _ _ hb).trans (ih h)
+
 theorem sound_execAct {cfg : Cfg} {fs : FS} {rec : Runner} (hrec : RecSound rec) {a : Act}
     {fr fr' : Frame} {s s' : St} {r : Option Err}
     (h : execAct cfg fs rec a fr s = some (r, fr', s')) : Sound s s' := by
@@ -604,6 +648,11 @@ theorem sound_execAct {cfg : Cfg} {fs : FS} {rec : Runner} (hrec : RecSound rec)
       exact sound_runImport hrec hir
   · -- throw
     simp only [Option.some.injEq, Prod.mk.injEq] at h; rw [← h.2.2]; exact Sound.refl s
+  · -- (multi-)assignment with patterns
+    split at h
+    · simp only [Option.some.injEq, Prod.mk.injEq] at h; rw [← h.2.2]; exact Sound.refl s
+    · simp only [Option.some.injEq] at h
+      exact sound_bindTargets _ _ h
 
 theorem sound_execActs {cfg : Cfg} {fs : FS} {rec : Runner} (hrec : RecSound rec)
     (acts : List Act) : ∀ {fr fr' : Frame} {s s' : St} {r : Option Err},
@@ -811,6 +860,7 @@ def touches (al et : Bool) (k : Name) : Act → Bool
   | .importMods items => et && items.any (fun i => i.exportKey al == k)
   | .fromImport _ items => et && items.any (fun i => i.exportKey al == k)
   | .fromAll _ => et
+  | .assignPat exp targets _ => (exp || et) && (boundIds targets).contains k
   | _ => false
 
 def touchesT (al et : Bool) (k : Name) : TAct → Bool
@@ -895,6 +945,91 @@ theorem fromItems_keeps (al : Bool) (mv : V) (k : Name) (items : List Item) :
       simp only [List.any_cons, Bool.true_and, Bool.or_eq_false_iff, beq_eq_false_iff_ne] at ht
       exact fun hh => ht.1 hh.symm
 
+theorem bindEntries_keeps (b : Bool) (mv : V) (k : Name) (es : List PEntry) :
+    ∀ {fr fr' : Frame} {s s' : St} {r : Option Err},
+    bindEntries b mv es fr s = (r, fr', s') →
+    (b && (es.filterMap PEntry.target).contains k) = false →
+    lookup k s'.exports.data = lookup k s.exports.data ∧ fr'.exportTop = fr.exportTop := by
+  induction es with
+  | nil =>
+    intro fr fr' s s' r h _
+    simp only [bindEntries, Prod.mk.injEq] at h
+    rw [← h.2.2, ← h.2.1]; exact ⟨rfl, rfl⟩
+  | cons e rest ih =>
+    intro fr fr' s s' r h ht
+    unfold bindEntries at h
+    split at h
+    · simp only [Prod.mk.injEq] at h
+      rw [← h.2.2, ← h.2.1]; exact ⟨rfl, rfl⟩
+    · rename_i v _
+      split at h
+      · rename_i n hn
+        have ht' : (b && (rest.filterMap PEntry.target).contains k) = false := by
+          cases b with
+          | false => simp
+          | true =>
+            simp only [Bool.true_and] at ht ⊢
+            simp only [List.filterMap_cons, hn, List.contains_cons, Bool.or_eq_false_iff] at ht
+            exact ht.2
+        obtain ⟨h1, h2⟩ := ih h ht'
+        refine ⟨?_, by rw [h2, bind_exportTop]⟩
+        rw [h1, exportIf_lookup_ne]
+        intro hb
+        rw [hb] at ht
+        simp only [Bool.true_and, List.filterMap_cons, hn, List.contains_cons, Bool.or_eq_false_iff,
+          beq_eq_false_iff_ne] at ht
+        exact ht.1
+      · rename_i hn
+        have ht' : (b && (rest.filterMap PEntry.target).contains k) = false := by
+          simpa only [List.filterMap_cons, hn] using ht
+        exact ih h ht'
+
+theorem bindTargets_keeps (b : Bool) (k : Name) (ts : List Target) :
+    ∀ {vs : List V} {fr fr' : Frame} {s s' : St} {r : Option Err},
+    bindTargets b ts vs fr s = (r, fr', s') →
+    (b && (boundIds ts).contains k) = false →
+    lookup k s'.exports.data = lookup k s.exports.data ∧ fr'.exportTop = fr.exportTop := by
+  induction ts with
+  | nil =>
+    intro vs fr fr' s s' r h _
+    simp only [bindTargets, Prod.mk.injEq] at h
+    rw [← h.2.2, ← h.2.1]; exact ⟨rfl, rfl⟩
+  | cons t rest ih =>
+    intro vs fr fr' s s' r h ht
+    have hsplit : (b && (Target.bound t).contains k) = false ∧ (b && (boundIds rest).contains k) = false := by
+      cases b with
+      | false => simp
+      | true =>
+        simp only [Bool.true_and, boundIds, List.flatMap_cons, List.contains_eq_mem, List.mem_append,
+          decide_eq_false_iff_not, not_or] at ht ⊢
+        exact ⟨ht.1, ht.2⟩
+    cases t with
+    | id k' =>
+      simp only [bindTargets] at h
+      obtain ⟨h1, h2⟩ := ih h hsplit.2
+      refine ⟨?_, by rw [h2, bind_exportTop]⟩
+      rw [h1, exportIf_lookup_ne]
+      intro hb
+      have := hsplit.1
+      rw [hb] at this
+      simp only [Bool.true_and, Target.bound, List.contains_cons, List.contains_nil, Bool.or_false,
+        beq_eq_false_iff_ne] at this
+      exact this
+    | ignored =>
+      simp only [bindTargets] at h
+      exact ih h hsplit.2
+    | mapPat es =>
+      simp only [bindTargets] at h
+      split at h
+      · rename_i hb
+        simp only [Prod.mk.injEq] at h
+        rw [← h.2.2, ← h.2.1]
+        exact bindEntries_keeps b _ k es hb hsplit.1
+      · rename_i hb
+        obtain ⟨h1, h2⟩ := bindEntries_keeps b _ k es hb hsplit.1
+        obtain ⟨h3, h4⟩ := ih h hsplit.2
+        exact ⟨by rw [h3, h1], by rw [h4, h2]⟩
+
 /-- a statement that does not write entry `k` leaves it alone — whatever it imports on the way -/
 theorem execAct_keeps {cfg : Cfg} {fs : FS} {rec : Runner} {a : Act} {fr fr' : Frame} {s s' : St}
     {r : Option Err} (k : Name) (h : execAct cfg fs rec a fr s = some (r, fr', s'))
@@ -960,6 +1095,10 @@ theorem execAct_keeps {cfg : Cfg} {fs : FS} {rec : Runner} {a : Act} {fr fr' : F
       simp only [Option.some.injEq, Prod.mk.injEq] at h; rw [← h.2.2, ← h.2.1, runImport_exports hir]
       exact ⟨rfl, rfl⟩
   · simp only [Option.some.injEq, Prod.mk.injEq] at h; rw [← h.2.2, ← h.2.1]; exact ⟨rfl, rfl⟩
+  · split at h
+    · simp only [Option.some.injEq, Prod.mk.injEq] at h; rw [← h.2.2, ← h.2.1]; exact ⟨rfl, rfl⟩
+    · simp only [Option.some.injEq] at h
+      exact bindTargets_keeps _ k _ h (by simpa [touches] using ht)
 
 theorem execTAct_keeps {cfg : Cfg} {fs : FS} {rec : Runner} {a : TAct} {fr fr' : Frame} {s s' : St}
     {r : Option Err} (k : Name) (h : execTAct cfg fs rec a fr s = some (r, fr', s'))
@@ -1026,6 +1165,38 @@ theorem fromItems_exportTop (al : Bool) (mv : V) (items : List Item) :
     · simp only [Prod.mk.injEq] at h; rw [← h.2.1]
     · rw [ih h]; rfl
 
+theorem bindEntries_exportTop (b : Bool) (mv : V) (es : List PEntry) :
+    ∀ {fr fr' : Frame} {s s' : St} {r : Option Err},
+    bindEntries b mv es fr s = (r, fr', s') → fr'.exportTop = fr.exportTop := by
+  induction es with
+  | nil => intro fr fr' s s' r h; simp only [bindEntries, Prod.mk.injEq] at h; rw [← h.2.1]
+  | cons e rest ih =>
+    intro fr fr' s s' r h
+    unfold bindEntries at h
+    split at h
+    · simp only [Prod.mk.injEq] at h; rw [← h.2.1]
+    · split at h
+      · rw [ih h]; rfl
+      · exact ih h
+
+theorem bindTargets_exportTop (b : Bool) (ts : List Target) :
+    ∀ {vs : List V} {fr fr' : Frame} {s s' : St} {r : Option Err},
+    bindTargets b ts vs fr s = (r, fr', s') → fr'.exportTop = fr.exportTop := by
+  induction ts with
+  | nil => intro vs fr fr' s s' r h; simp only [bindTargets, Prod.mk.injEq] at h; rw [← h.2.1]
+  | cons t rest ih =>
+    intro vs fr fr' s s' r h
+    cases t with
+    | id k => simp only [bindTargets] at h; rw [ih h]; rfl
+    | ignored => simp only [bindTargets] at h; exact ih h
+    | mapPat es =>
+      simp only [bindTargets] at h
+      split at h
+      · rename_i hb
+        simp only [Prod.mk.injEq] at h; rw [← h.2.1]; exact bindEntries_exportTop _ _ _ hb
+      · rename_i hb
+        rw [ih h, bindEntries_exportTop _ _ _ hb]
+
 theorem execAct_exportTop {cfg : Cfg} {fs : FS} {rec : Runner} {a : Act} {fr fr' : Frame} {s s' : St}
     {r : Option Err} (h : execAct cfg fs rec a fr s = some (r, fr', s')) :
     fr'.exportTop = fr.exportTop := by
@@ -1059,6 +1230,10 @@ theorem execAct_exportTop {cfg : Cfg} {fs : FS} {rec : Runner} {a : Act} {fr fr'
     · simp only [Option.some.injEq, Prod.mk.injEq] at h; rw [← h.2.1]
     · simp only [Option.some.injEq, Prod.mk.injEq] at h; rw [← h.2.1]
   · simp only [Option.some.injEq, Prod.mk.injEq] at h; rw [← h.2.1]
+  · split at h
+    · simp only [Option.some.injEq, Prod.mk.injEq] at h; rw [← h.2.1]
+    · simp only [Option.some.injEq] at h
+      exact bindTargets_exportTop _ _ h
 
 theorem execTAct_exportTop {cfg : Cfg} {fs : FS} {rec : Runner} {a : TAct} {fr fr' : Frame} {s s' : St}
     {r : Option Err} (h : execTAct cfg fs rec a fr s = some (r, fr', s')) :
@@ -1086,6 +1261,102 @@ theorem execTActs_exportTop {cfg : Cfg} {fs : FS} {rec : Runner} (acts : List TA
       rw [← h.2.1]; exact execTAct_exportTop ha
     · rename_i ha
       rw [ih h, execTAct_exportTop ha]
+
+/-! ### exported (multi-)assignments with patterns: locals and exports entries move in lock-step -/
+
+/-- the local `k` and the exports entry `k` exist and hold the same value -/
+def AgreeAt (k : Name) (fr : Frame) (s : St) : Prop :=
+  ∃ v, lookup k fr.locals = some v ∧ lookup k s.exports.data = some v
+
+theorem agreeAt_step (k n : Name) (v : V) (fr : Frame) (s : St) (h : k = n ∨ AgreeAt k fr s) :
+    AgreeAt k (Modules.bind n v fr) (exportIf true n v s) := by
+  by_cases hk : k = n
+  · subst hk
+    exact ⟨v, by simp [Modules.bind, lookup_insert_self], by simp [exportIf, setData, lookup_insert_self]⟩
+  · rcases h with h | ⟨v', h1, h2⟩
+    · exact absurd h hk
+    · refine ⟨v', ?_, ?_⟩
+      · simp only [Modules.bind]; rw [lookup_insert_ne _ _ _ _ hk]; exact h1
+      · simp only [exportIf, if_true, setData]; rw [lookup_insert_ne _ _ _ _ hk]; exact h2
+
+theorem bindEntries_agree (mv : V) (k : Name) (es : List PEntry) :
+    ∀ {fr fr' : Frame} {s s' : St}, bindEntries true mv es fr s = (none, fr', s') →
+    (k ∈ es.filterMap PEntry.target ∨ AgreeAt k fr s) → AgreeAt k fr' s' := by
+  induction es with
+  | nil =>
+    intro fr fr' s s' h hk
+    simp only [bindEntries, Prod.mk.injEq, true_and] at h
+    rw [← h.1, ← h.2]
+    rcases hk with hk | hk
+    · simp at hk
+    · exact hk
+  | cons e rest ih =>
+    intro fr fr' s s' h hk
+    unfold bindEntries at h
+    split at h
+    · simp at h
+    · rename_i v _
+      split at h
+      · rename_i n hn
+        apply ih h
+        rcases hk with hk | hk
+        · simp only [List.filterMap_cons, hn, List.mem_cons] at hk
+          rcases hk with hk | hk
+          · exact Or.inr (agreeAt_step k n v fr s (Or.inl hk))
+          · exact Or.inl hk
+        · exact Or.inr (agreeAt_step k n v fr s (Or.inr hk))
+      · rename_i hn
+        apply ih h
+        rcases hk with hk | hk
+        · simp only [List.filterMap_cons, hn] at hk; exact Or.inl hk
+        · exact Or.inr hk
+
+theorem bindTargets_agree (k : Name) (ts : List Target) :
+    ∀ {vs : List V} {fr fr' : Frame} {s s' : St}, bindTargets true ts vs fr s = (none, fr', s') →
+    (k ∈ boundIds ts ∨ AgreeAt k fr s) → AgreeAt k fr' s' := by
+  induction ts with
+  | nil =>
+    intro vs fr fr' s s' h hk
+    simp only [bindTargets, Prod.mk.injEq, true_and] at h
+    rw [← h.1, ← h.2]
+    rcases hk with hk | hk
+    · simp [boundIds] at hk
+    · exact hk
+  | cons t rest ih =>
+    intro vs fr fr' s s' h hk
+    have hk' : k ∈ Target.bound t ∨ k ∈ boundIds rest ∨ AgreeAt k fr s := by
+      rcases hk with hk | hk
+      · simp only [boundIds, List.flatMap_cons, List.mem_append] at hk
+        rcases hk with hk | hk
+        · exact Or.inl hk
+        · exact Or.inr (Or.inl hk)
+      · exact Or.inr (Or.inr hk)
+    cases t with
+    | id k' =>
+      simp only [bindTargets] at h
+      apply ih h
+      rcases hk' with hk' | hk' | hk'
+      · simp only [Target.bound, List.mem_singleton] at hk'
+        exact Or.inr (agreeAt_step k k' _ fr s (Or.inl hk'))
+      · exact Or.inl hk'
+      · exact Or.inr (agreeAt_step k k' _ fr s (Or.inr hk'))
+    | ignored =>
+      simp only [bindTargets] at h
+      apply ih h
+      rcases hk' with hk' | hk' | hk'
+      · simp [Target.bound] at hk'
+      · exact Or.inl hk'
+      · exact Or.inr hk'
+    | mapPat es =>
+      simp only [bindTargets] at h
+      split at h
+      · simp at h
+      · rename_i fr1 s1 hb
+        apply ih h
+        rcases hk' with hk' | hk' | hk'
+        · exact Or.inr (bindEntries_agree _ k es hb (Or.inl hk'))
+        · exact Or.inl hk'
+        · exact Or.inr (bindEntries_agree _ k es hb (Or.inr hk'))
 
 /-- a successful run of `xs ++ ys` is a successful run of `xs` followed by a run of `ys` -/
 theorem execTActs_append {cfg : Cfg} {fs : FS} {rec : Runner} (xs ys : List TAct) :
